@@ -5,19 +5,22 @@ From MV Require Import Conc.Locks Conc.LocksProofs.
 @TABLE@
 Import ListNotations.
 
-(* the proved checker, evaluated by the kernel on the table regenerated from the Go source *)
-Lemma lockgraph_ok : lock_discipline_ok table = true.
+(* the proved checker, evaluated by the kernel on the table regenerated from the Go source: every
+   function releases on every path what it acquired (no unbalanced function), the call closure is
+   closed, no lock class is re-acquired while held, the lock order has a topological numbering *)
+Lemma lockgraph_ok : lock_discipline_ok_full fn_names unbalanced table = true.
 Proof. vm_compute. reflexivity. Qed.
 
 (* hence: goroutines whose lock behaviour is described by the table never deadlock on the broker's
    locks and can always run to completion, whatever the schedule *)
 Theorem C32_holds_for_this_tree :
+  (forall g, existsb (N.eqb g) unbalanced = false) /\\
   forall (cl : lock -> cls) (gs : list (fname * list ev)),
-    (forall f es, In (f, es) gs -> conforms cl table [(f, [])] es = true) ->
+    (forall f es, In (f, es) gs -> conforms cl table unbalanced [(f, [])] es = true) ->
     forall sched,
       ~ deadlocked (run sched (map (fun g => thread_of (snd g)) gs)) /\\
       exists sched', all_done (run (sched ++ sched') (map (fun g => thread_of (snd g)) gs)).
-Proof. exact (checked_table_sound table lockgraph_ok). Qed.
+Proof. exact (checked_table_sound_full fn_names unbalanced table lockgraph_ok). Qed.
 
 Print Assumptions C32_holds_for_this_tree.
 """
@@ -38,10 +41,14 @@ def translate(tier):
     unsupported = [n for n in side["notes"] if "UNSUPPORTED" in n]
     dynamic = [n for n in side["notes"] if "DYNAMIC" in n]
     blocking = [n for n in side["notes"] if "BLOCKING" in n]
+    for u in (side.get("unbalanced") or [])[:12]:
+        notes.append("UNBALANCED: %s leaves the function (%s at %s) while still holding %s: the lock is never released on this path"
+                     % (u["fn"], u["how"], u["pos"], u["lock"]))
     if unsupported:
         notes.append("constructs the translator cannot describe (the table may not cover them): " + " | ".join(unsupported)[:1200])
     if ok:
-        notes.append("kernel: lock_discipline_ok LockGraph.table = true (vm_compute); "
+        notes.append("kernel: lock_discipline_ok_full fn_names unbalanced table = true (vm_compute: every function balanced, "
+                     "closure closed, no re-entrant acquisition, lock order numbered); "
                      "C32_holds_for_this_tree closed under the global context")
     else:
         viol = G.coq_list_of_tuples(dout, 3)
@@ -54,7 +61,7 @@ def translate(tier):
             else:
                 notes.append("LOCK-ORDER: %s acquires %s while holding %s against the order of the rest of the code, at %s"
                              % (fn, cb, ca, ", ".join(sorted(set(where))[:6])))
-        if not viol:
+        if not viol and not side.get("unbalanced"):
             notes.append("check file did not compile: " + cout[-1200:])
     notes.append("LockGraph: %d functions analysed, %d sites, %d lock classes: %s" % (
         side["functions_analysed"], len(sites), len(cls), ", ".join(cls)))
@@ -108,8 +115,9 @@ PROP = dict(
                  "(declared class refinement; RetainMessage locks a descendant returned by set())",
                  "hook implementations, inline-subscription handlers and net.Conn implementations called while a broker "
                  "lock is held do not call back into lock-owning broker types",
-                 "goroutines release every lock they acquire within the acquiring function (checked syntactically: "
-                 "any other shape is reported as UNSUPPORTED and fails the obligation)"],
+                 "every function releases on every path (return, panic, end) the locks it acquired, or covers them by a defer: "
+                 "checked path-sensitively by the translator, reported per function in the table (unbalanced) and required "
+                 "by the checker"],
     trusted=["harness/cmd/astx (Go-AST translator, stdlib go/ast + go/types): a wrong table would make the structural "
              "theorem be about the wrong program; mitigated by the stress / forced-hang search on the real code"],
 )
